@@ -13,5 +13,5 @@ def register(obj):
 
 
 def load_all():
-    from . import exchange, trade, broker  # noqa
+    from . import exchange, trade, broker, allocation, rebalancing  # noqa
     return REGISTRY
